@@ -544,12 +544,14 @@ class XPathToken(Token[ta.XPathTokenType]):
             left_values = [x for x in self._items[0].atomization(context)]
             right_values = [x for x in self._items[1].atomization(context)]
             # Boolean comparison if one of the results is a single boolean value (1.)
+            # XPath 1.0: relational operators always compare numbers
+            bool_rule = self.parser.version != '1.0' or self.symbol in ('=', '!=')
             try:
-                if isinstance(left_values[0], bool):
+                if bool_rule and isinstance(left_values[0], bool):
                     if len(left_values) == 1:
                         yield left_values[0], self.boolean_value(right_values)
                         return
-                if isinstance(right_values[0], bool):
+                if bool_rule and isinstance(right_values[0], bool):
                     if len(right_values) == 1:
                         yield self.boolean_value(left_values), right_values[0]
                         return
@@ -558,10 +560,16 @@ class XPathToken(Token[ta.XPathTokenType]):
 
             # Converts to float for lesser-greater operators (3.)
             if self.symbol in ('<', '<=', '>', '>='):
-                yield from product(map(float, left_values), map(float, right_values))
+                yield from product(map(self.number_value, left_values),
+                                   map(self.number_value, right_values))
                 return
             elif self.parser.version == '1.0':
-                yield from product(left_values, right_values)
+                for op1, op2 in product(left_values, right_values):
+                    if isinstance(op1, (int, float, decimal.Decimal)) or \
+                            isinstance(op2, (int, float, decimal.Decimal)):
+                        yield self.number_value(op1), self.number_value(op2)
+                    else:
+                        yield op1, op2
                 return
         else:
             left_values = self._items[0].atomization(context)
